@@ -1,12 +1,13 @@
 """Shared by the checks C18 and C03: document generators (XML text, then parsed and whitespace-reduced by the
 implementation), running the real serializers, and the decoding of model results.
 
-Stated limitation of the serializer models (Ws/Pretty.v, Ws/Wrap.v): trees without namespaces except xml:
-attributes; the generators stay inside that domain.  Carriage returns and tabs/newlines in attribute values are not
+The serializer models (Ws/Pretty.v, Ws/Wrap.v) are written for trees without namespaces except xml: attributes;
+namespaced documents are run through the models as their qualified view (Ws/Qualified.v; ns_view below).  Carriage returns and tabs/newlines in attribute values are not
 generated either: the plain serializer writes them unescaped and an XML reader normalises them (C02's subject)."""
 import io
 
 import impl
+from common import cstr
 from impl import Document, ParserOptions, FormatOptions, TagNode, extract, to_xml, altered_default_filters
 
 XML_NS = impl.XML_NS
